@@ -483,6 +483,15 @@ impl Sim {
         std::mem::take(&mut self.inner.lock().unwrap().violations)
     }
 
+    /// Switch a cooperative fault point on or off while the run is under way (rate per mille;
+    /// 1000 = always, 0 = never).
+    pub fn set_buggify(&self, site: &str, rate: u32) {
+        let mut g = self.inner.lock().unwrap();
+        g.cfg.buggify.insert(site.to_string(), rate);
+        g.hash.u64(0xB066);
+        g.hash.u64(rate as u64);
+    }
+
     pub fn fault_draw<R>(&self, f: impl FnOnce(&mut Tape) -> R) -> R {
         f(&mut self.inner.lock().unwrap().fault)
     }
